@@ -439,7 +439,7 @@ impl AwsCustomAuthOptionsBuilder {
         let mut params = Vec::new();
 
         if let Some(authorizer_name) = &self.authorizer_name {
-            params.push(format!("{}={}", CUSTOM_AUTH_AUTHORIZER_QUERY_PARAM_NAME, authorizer_name.clone()));
+            params.push(format!("{}={}", CUSTOM_AUTH_AUTHORIZER_QUERY_PARAM_NAME, urlencoding::encode(authorizer_name)));
         }
 
         if let Some(authorizer_signature) = &self.authorizer_signature {
@@ -454,7 +454,7 @@ impl AwsCustomAuthOptionsBuilder {
         }
 
         if let Some(authorizer_token_key_name) = &self.authorizer_token_key_name {
-            params.push(format!("{}={}", authorizer_token_key_name.clone(), self.authorizer_token_key_value.as_ref().unwrap().clone()));
+            params.push(format!("{}={}", urlencoding::encode(authorizer_token_key_name), urlencoding::encode(self.authorizer_token_key_value.as_ref().unwrap())));
         }
 
         params
